@@ -233,6 +233,12 @@ pub fn parse_subgoal(to_parse: &str) -> Result<Goal, String> {
        return parse_operator_goal(&functor_str, &args_str);
     }
 
+    // A goal without arguments may be written with empty parentheses, as it
+    // is displayed: go()
+    if args_str.trim().len() == 0 {
+        return Ok(make_goal_no_args(&functor_str));
+    }
+
     let args = parse_arguments(&args_str)?;
     return Ok(make_goal(&functor_str, args));
 
